@@ -172,6 +172,35 @@ def r3_1_2(ctx):
                 )
             else:
                 ctx.ok("R3.2", where(fi), f"{obj}: every mutation is followed by {obj}._rebuild_index_dicts() on all normal paths")
+            # ---- R3.2b: ... and on the way out through a suspension point.  A command is cancelled by its watchdog, a file
+            # operation fails: the exception leaves from an `await`.  If the lists were changed before it and the rebuild lies
+            # behind it, the indexes stay stale for good (the resync sees lists that agree with the folder and repairs nothing).
+            def _exc_edge_ok(e, g=g):
+                if e.label in flow.NORMAL:
+                    return True
+                return g.nodes[e.src].awaits or g.nodes[e.src].kind in ("handler", "raise") or e.label in ("catch", "uncaught", "uncaught_base")
+
+            bad_x = None
+            for m in muts:
+                if m[1] != obj:
+                    continue
+                st = _stmt(m[0], fi)
+                for nid in g.nodes_for(st):
+                    w = flow.escapes_without(g, nid, lambda n: n in rebuild, [g.raise_exit], labels=flow.ALL, edge_ok=_exc_edge_ok)
+                    ctx.paths_explored += 1
+                    if w and bad_x is None:
+                        bad_x = (m, w)
+            if bad_x:
+                m, w = bad_x
+                ctx.bad(
+                    "R3.2", fi.module, fi.qual, f"{obj}: {norm(_stmt(m[0], fi), 80)} then an await that raises",
+                    f"{obj}.{m[2]} is changed and an exception leaving a later suspension point (the command's time-out, a failed file "
+                    f"operation) takes the function out past {obj}._rebuild_index_dicts(): the reverse indexes keep the old positions, every "
+                    "later UID / key look-up hits another message, and no resync repairs it",
+                    m[0].lineno, flow.fmt_path(g, w),
+                )
+            else:
+                ctx.ok("R3.2", where(fi), f"{obj}: no exception from a suspension point behind a mutation by-passes the rebuild")
     # _rebuild_index_dicts itself builds both maps from enumerate() of the respective list
     rb = p.func("mbox.Mailbox._rebuild_index_dicts")
     ctx.analysed(rb)
